@@ -69,3 +69,83 @@ def coord(ctx):
     if ngroups < 5:
         raise AnalysisError('anchor-vanished: coordinate computations (%d)' % ngroups)
     return obs
+
+
+@rule('SA-COORD.refresh')
+@props('C02', 'C07', 'C17')
+def refresh(ctx):
+    """The coordinate cache is refreshed totally: the loop that renumbers the children of a directory
+    (the only writer of extents_to_here / offset_to_here / index_in_parent) assigns all three on every
+    iteration, runs to the end of the children list and has no early exit.  The three values do not move
+    together (an insertion that is absorbed by the slack of a sector leaves the offsets of later records
+    unchanged but still shifts their index), so a "nothing changed, stop" shortcut on some of them leaves
+    the others stale; removal by index then deletes a neighbour of the addressed record."""
+    obs = []
+    found = 0
+    for fi in ctx.m.pkg_functions():
+        if fi.cls is None or fi.cls.qual != REC:
+            continue
+        for loop in [n for n in ctx.own_nodes(fi) if isinstance(n, (ast.For, ast.While))]:
+            written = {}
+            for n in ast.walk(loop):
+                if isinstance(n, (ast.Assign, ast.AugAssign)):
+                    for t in (n.targets if isinstance(n, ast.Assign) else [n.target]):
+                        if isinstance(t, ast.Attribute) and t.attr in COORD and isinstance(t.value, ast.Name) and t.value.id != 'self':
+                            written.setdefault(t.value.id, set()).add(t.attr)
+            for var, attrs in written.items():
+                found += 1
+                key = '%s|loop over %s' % (fi.qual, norm(loop.iter) if isinstance(loop, ast.For) else norm(loop.test))
+                problems = []
+                if attrs != set(COORD):
+                    problems.append('assigns only %s of the cached coordinates' % sorted(attrs))
+                # early exits inside the loop body
+                for n in ast.walk(loop):
+                    if isinstance(n, (ast.Return, ast.Break)) and n is not loop:
+                        # a break/return that belongs to a nested loop still ends this iteration early only for `return`
+                        problems.append('leaves the loop early at line %d (`%s`): the records behind that point keep their old values'
+                                        % (n.lineno, norm(n).split('\n')[0][:60]))
+                # every path through the body assigns all of them (must-def on the CFG, restricted to the loop)
+                g = ctx.cfg(fi)
+                head = g.node_of(loop)
+                body_ids = set()
+                for s in ast.walk(loop):
+                    nd = g.node_of(s) if isinstance(s, ast.stmt) else None
+                    if nd is not None:
+                        body_ids.add(nd.id)
+
+                def wr(n):
+                    st = n.stmt
+                    out = set()
+                    if n.kind == 'stmt' and isinstance(st, (ast.Assign, ast.AugAssign)):
+                        for t in (st.targets if isinstance(st, ast.Assign) else [st.target]):
+                            if isinstance(t, ast.Attribute) and t.attr in COORD and isinstance(t.value, ast.Name) and t.value.id == var:
+                                out.add(t.attr)
+                    return out
+
+                def transfer(n, st, lab):
+                    if n is head:
+                        return frozenset() if lab == 'T' else st
+                    return st | frozenset(wr(n))
+                IN = g.forward(frozenset(), transfer, lambda a, b: a & b, start=head)
+                # state arriving back at the head along back edges
+                back = None
+                for n in g.nodes:
+                    if n.id in body_ids and n is not head:
+                        for m, lab in n.succ:
+                            if m is head:
+                                outst = IN.get(n.id)
+                                if outst is None:
+                                    continue
+                                outst = outst | frozenset(wr(n))
+                                back = outst if back is None else (back & outst)
+                if back is not None and set(COORD) - set(back) and attrs == set(COORD):
+                    problems.append('some path through the loop body does not assign %s' % sorted(set(COORD) - set(back)))
+                if isinstance(loop, ast.For):
+                    it = norm(loop.iter)
+                    if 'len(self.children)' not in it and it != 'self.children' and not it.startswith('enumerate(self.children'):
+                        problems.append('does not run to the end of self.children (`%s`)' % it)
+                obs.append(Ob('SA-COORD.refresh', key, not problems, ctx.loc(fi, loop),
+                              '' if not problems else 'the refresh of the cached coordinates of `%s` %s' % (var, '; '.join(problems))))
+    if found < 1:
+        raise AnalysisError('anchor-vanished: no loop refreshes the cached coordinates of DirectoryRecord children')
+    return obs
